@@ -82,6 +82,7 @@ class PoolWorld(object):
         self.pool_info = {}
         self.in_service = set()
         self.trashed_at = {}
+        self.free_and_orphaned = {}
         self.session_shutdown_trace = None
         self.viol = []
         pw = self
@@ -188,6 +189,9 @@ class PoolWorld(object):
                 mm[0] = f
             if f > mm[1]:
                 mm[1] = f
+            if conn.orphaned_request_ids and not conn.orphaned_request_ids.isdisjoint(conn.request_ids):
+                # a stream id that is recorded as orphaned AND sits in the free list
+                self.free_and_orphaned.setdefault(conn.sim_id, set()).update(conn.orphaned_request_ids.intersection(conn.request_ids))
             pool = owner_of(conn)
             if pool is not None:
                 if conn in getattr(pool, '_trash', ()):
